@@ -148,7 +148,7 @@ func init() {
 		if added {
 			variant = 3
 		}
-		base := c.Choose(2)    // None | Default
+		base := c.Choose(2) // None | Default
 		var opts flags.Options
 		if base == 1 {
 			opts = flags.Default
